@@ -9,7 +9,7 @@ RULE = ("trusted metadata with 1-4 roles holding overlapping / disjoint key sets
         "carrying their own generous delegations; signer subsets around each role's threshold; both modes; malformed trusted metadata. "
         "non-trivial = trusted metadata well-formed and >= 2 roles or a signed envelope; distinct by (role, untrusted, trusted, mode)")
 
-THEOREMS = ["verifyDelegation_iff", "other_roles_irrelevant", "unknown_role", "uses_trusted_rule_only"]
+THEOREMS = ["verifyDelegation_iff", "other_roles_irrelevant", "unknown_role", "only_keys_of_named_role_count"]
 
 ROLE_NAMES = ["key_mgr", "pkg_mgr", "root", "Key_mgr", "key_mgr ", "key_mgr.json", "", "é", "x"]
 
